@@ -110,6 +110,121 @@ func mustPassBlocks(fn, target *ssa.Function, depth int) map[*ssa.BasicBlock]boo
 	return out
 }
 
+// ---- C12.MAP, nested fields ----
+
+// relYAMLPath: where a field of a node lies relative to the YAML path of the node itself (domain table, GitHub's workflow
+// syntax). The key a helper passes for `env` stands for the entries of the mapping (GitHub's table has `...env.<env_id>`
+// for containers), so the entries themselves add nothing.
+var relYAMLPath = map[string]string{
+	"Container.Image": ".image", "Container.Env": ".env.<env_id>", "Container.Ports": ".ports", "Container.Volumes": ".volumes", "Container.Options": ".options",
+	"Credentials.Username": ".credentials.username", "Credentials.Password": ".credentials.password",
+	"EnvVar.Name": "", "EnvVar.Value": "", "Env.Expression": "",
+	"Concurrency.Group": ".group", "Concurrency.CancelInProgress": ".cancel-in-progress",
+	"DefaultsRun.Shell": ".shell", "DefaultsRun.WorkingDirectory": ".working-directory",
+	"Bool.Expression": "", "Int.Expression": "", "Float.Expression": "", "String.Value": "",
+}
+
+type c12Nested struct {
+	c       *Ctx
+	tbl     map[string]availEntry
+	keyRole map[*ssa.Parameter]bool
+	occ     map[string]int
+	done    map[string]bool
+}
+
+// descend: g was called at `site` with the node at YAML path `path` as argument number di. Every call inside g that hands
+// a field of that node (or the node itself) on with a key that is not a literal is evaluated under the strings this call
+// site binds, and the key must have the availability of the table key that governs the field's path.
+func (n *c12Nested) descend(g *ssa.Function, site ssa.CallInstruction, di int, path string, callerEnv map[*ssa.Parameter]string, depth int) {
+	if depth > 4 || g.Blocks == nil || di >= len(g.Params) {
+		return
+	}
+	env := map[*ssa.Parameter]string{}
+	for i, prm := range g.Params {
+		if b, ok := prm.Type().Underlying().(*types.Basic); !ok || b.Kind() != types.String || i >= len(site.Common().Args) {
+			continue
+		}
+		if vals, ok := evalStr(site.Common().Args[i], callerEnv, 0); ok && len(vals) == 1 {
+			for s := range vals {
+				env[prm] = s
+			}
+		}
+	}
+	data := g.Params[di]
+	eachInstr(g, func(_ *ssa.BasicBlock, _ int, in ssa.Instruction) {
+		call, ok := in.(ssa.CallInstruction)
+		if !ok {
+			return
+		}
+		g2 := staticCallee(call.Common())
+		if g2 == nil || !inModule(g2) {
+			return
+		}
+		ki := -1
+		for _, i := range paramIndexIn(g2, n.keyRole) {
+			ki = i
+		}
+		args := call.Common().Args
+		if ki < 0 || ki >= len(args) {
+			return
+		}
+		for i, a := range args {
+			if i == 0 || i == ki {
+				continue
+			}
+			field, rel, known := "", "", false
+			if a == ssa.Value(data) {
+				field, rel, known = "the node itself", "", true
+			} else {
+				fs := map[string]bool{}
+				fieldsFeedingDirect(a, fs)
+				for f := range fs {
+					if r, ok := relYAMLPath[f]; ok {
+						field, rel, known = f, r, true
+					}
+				}
+			}
+			if !known {
+				continue
+			}
+			newPath := path + rel
+			id := fmt.Sprintf("%s|%d|%s", FuncName(g), call.Pos(), newPath)
+			vals, ok := evalStr(args[ki], env, 0)
+			if field != "the node itself" && !n.done[id] {
+				n.done[id] = true
+				k := fmt.Sprintf("%s|%s at %s checked by %s", FuncName(g), field, newPath, FuncName(g2))
+				n.occ[k]++
+				construct := fmt.Sprintf("%s#%d", k, n.occ[k])
+				want := expectedKey(n.tbl, newPath)
+				switch {
+				case !ok:
+					n.c.undecided(construct, call.Pos(), "the key handed on cannot be evaluated from the strings the caller passes")
+				default:
+					var wrong []string
+					for v := range vals {
+						if !sameAvail(n.tbl, v, want) {
+							wrong = append(wrong, fmt.Sprintf("%q", v))
+						}
+					}
+					sort.Strings(wrong)
+					if len(wrong) > 0 {
+						n.c.bad(construct, call.Pos(), fmt.Sprintf("the value at %s is governed by table key %q but it is checked with key %s, whose availability differs", newPath, want, strings.Join(wrong, ", ")))
+					} else {
+						n.c.ok(construct, call.Pos(), fmt.Sprintf("YAML path %s is governed by table key %q; passed %s", newPath, want, strings.Join(quoteAll(sortedKeys(vals)), ", ")))
+					}
+				}
+			}
+			agree := ok
+			for v := range vals {
+				agree = agree && sameAvail(n.tbl, v, expectedKey(n.tbl, newPath))
+			}
+			if agree {
+				n.descend(g2, call, i, newPath, env, depth+1) // a disagreement is reported once, where it arises
+			}
+		}
+	})
+}
+
 // ---- C12.VERDICT ----
 
 // The table of C12.TBL only takes effect through a chain of four links, each of which is a few lines that look harmless
